@@ -113,6 +113,9 @@ def nested_format(chk, tier, seed):
             ops += [o, "op q_format"]
         cases.append({"id": str(i), "model": m, "ops": ops})
     res, st = E.run_cases(cases, "c20n_" + tier, timeout=3000)
+    import engine_props
+    for r in res:
+        r["diff"] = engine_props.diff_until_taint(r)      # see engine_props.nested_stage
     bad = [r for r in res if r["diff"]]
     chk.ob("nested: ToSolutionOutput = Model/Units.v format on group / initial-stop histories (%d histories)" % n,
            not bad and st[0] == 0 and st[2] == 0, str(bad[0]["diff"])[:500] if bad else (st[1] + st[3])[-300:])
